@@ -1,5 +1,6 @@
 import RTA.Lemmas.Derive
 import RTA.Lemmas.DeriveIter
+import RTA.Lemmas.DeriveReach
 /-! # C12 — derived arrival curves dominate their source and are exact on the covered prefix
 
 Model: `RTA/Model/Curve.lean` (`curveFromTrace`), `RTA/Model/Derive.lean` (`dminScan` /
@@ -40,6 +41,16 @@ theorem from_arrival_bound_dominates_partial (a : Arr) (hwf : a.WF) (hex : a.Exa
     (∀ x, a.N x ≤ curveN (a.curveOfBound upTo) x) ∧
     (∀ x, x < (a.curveOfBound upTo).getLastD 0 → curveN (a.curveOfBound upTo) x = a.N x) :=
   curveOfBound_dominates a hwf hex upTo hreach hpos hsub hlast
+
+/-- the same with a plain size condition in place of `hreach`: the source admits `up_to + 1`
+arrivals within `2^65 - 1` time units (then the 64-step doubling search of the model finds its
+horizon, `Arr.horizonFor_reaches`) — for a sporadic source: `(up_to + 1) · T ≤ 2^65 - 1` -/
+theorem from_arrival_bound_dominates_of_size (a : Arr) (hwf : a.WF) (hex : a.Exact) (upTo : Nat)
+    (hsize : max upTo 3 + 1 ≤ a.N (2 ^ 65 - 1))
+    (hpos : 1 ≤ a.N 1) (hsub : SubAdditive a.N) (hlast : 1 ≤ (a.curveOfBound upTo).getLastD 0) :
+    (∀ x, a.N x ≤ curveN (a.curveOfBound upTo) x) ∧
+    (∀ x, x < (a.curveOfBound upTo).getLastD 0 → curveN (a.curveOfBound upTo) x = a.N x) :=
+  curveOfBound_dominates_of_size a hwf hex upTo hsize hpos hsub hlast
 
 /-- the same for `ArrivalCurvePrefix::from_arrival_bound_until` (equality up to the horizon
 needs no sub-additivity) -/
